@@ -391,6 +391,44 @@ func (g *c45Gen) elem(depth int) *c45Node {
 	return n
 }
 
+// chain builds an element with `levels` further nesting levels below it.
+func (g *c45Gen) chain(levels int) *c45Node {
+	t := g.t
+	n := &c45Node{Name: g.name()}
+	if levels <= 0 {
+		if rapid.Bool().Draw(t, "chainLeafText") {
+			n.Kids = append(n.Kids, g.textItem())
+		}
+		return n
+	}
+	indent := rapid.SampledFrom([]string{"", "\n  ", "\n\t", " "}).Draw(t, "chainIndent")
+	pad := func() {
+		switch rapid.IntRange(0, 3).Draw(t, "chainPad") {
+		case 0:
+		case 1, 2:
+			if indent != "" {
+				n.Kids = append(n.Kids, c45Item{Kind: c45Text, Text: indent, Raw: indent})
+			}
+		default:
+			n.Kids = append(n.Kids, g.textItem())
+		}
+	}
+	leaves := func(tag string) {
+		for i, k := 0, rapid.SampledFrom([]int{0, 0, 0, 1, 2}).Draw(t, tag); i < k; i++ {
+			leaf := &c45Node{Name: g.name()}
+			leaf.Kids = append(leaf.Kids, g.textItem())
+			n.Kids = append(n.Kids, c45Item{Kind: c45Elem, El: leaf})
+			pad()
+		}
+	}
+	pad()
+	leaves("chainLeavesBefore")
+	n.Kids = append(n.Kids, c45Item{Kind: c45Elem, El: g.chain(levels - 1)})
+	pad()
+	leaves("chainLeavesAfter")
+	return n
+}
+
 func (g *c45Gen) textItem() c45Item {
 	t := g.t
 	switch rapid.IntRange(0, 9).Draw(t, "textKind") {
@@ -432,7 +470,14 @@ func c45Serialize(t *rapid.T, root *c45Node) string {
 
 func c45Draw(t *rapid.T) c45Case {
 	g := &c45Gen{t: t, budget: rapid.IntRange(1, 40).Draw(t, "budget")}
-	root := g.elem(0)
+	var root *c45Node
+	if rapid.IntRange(0, 6).Draw(t, "deepChain") == 4 {
+		// deeply nested (pretty-printed) document: a chain of 10-40 levels, every level may carry
+		// indentation / text before and after its nested child and a few leaf siblings
+		root = g.chain(rapid.IntRange(10, 40).Draw(t, "chainDepth"))
+	} else {
+		root = g.elem(0)
+	}
 	// namespace declarations so that prefixed names are namespace-well-formed
 	decl := [][2]string{{"xmlns:ns", "urn:sap-com:document:sap:idoc"}, {"xmlns:sap", "urn:sap"}}
 	if rapid.IntRange(0, 5).Draw(t, "defaultNS") == 0 {
@@ -566,7 +611,14 @@ func TestVF_C45_Explode(t *testing.T) {
 				depths[e.depth] = true
 			}
 		}
-		st.Class(fmt.Sprintf("depth-%d", maxDepth))
+		switch {
+		case maxDepth >= 17:
+			st.Class("depth-17+")
+		case maxDepth >= 10:
+			st.Class("depth-10..16")
+		default:
+			st.Class(fmt.Sprintf("depth-%d", maxDepth))
+		}
 		switch {
 		case len(exp) == 1:
 			st.Class("elements-1")
